@@ -87,7 +87,7 @@ func (e *csEnv) randomEvent(rng *rand.Rand, ps []poolView) chain.M {
 	tok := e.tokens[rng.Intn(len(e.tokens))]
 	p := e.findPool(ps, tok)
 	x := rng.Intn(100)
-	if p != nil && p.L == 0 && rng.Intn(3) == 0 {
+	if p != nil && p.L == 0 && (p.S+p.T > 0 && rng.Intn(3) == 0 || p.S+p.T == 0 && rng.Intn(8) == 0) {
 		// an emptied pool: donate one side, or add one-sidedly to a side whose
 		// reserve is zero (division by zero in AddUnilateralLiquidity)
 		if p.S == 0 && p.T == 0 {
@@ -209,7 +209,7 @@ func (e *csEnv) randomEvent(rng *rand.Rand, ps []poolView) chain.M {
 		ev["denom"], ev["tok"], ev["amt"], ev["deadline"] = tok, tk, amt, e.deadline(rng)
 		ev["min1"] = max1(target + pick(rng, 0, 0, 0, -1, 1))
 		return ev
-	case x < 56:
+	case x < 56 && !(p.L == 0 && p.S+p.T == 0 && rng.Intn(4) > 0): // rarely wedge an emptied pool
 		ev := csEvent("Donate", u)
 		esc := p.esc
 		switch rng.Intn(12) {
